@@ -96,6 +96,15 @@ def handle (op : String) (args : List String) (impl : String) : Option Verdict :
     -- property on the implementation's output: every delivered message is attributed to the authenticated remote peer
     let ok := (items impl ";").all fun it => (it.splitOn ":").headD "" == toString r
     return ⟨out, ok && impl != "panic" && impl != "hang", s!"attr:n={min ls.length 3}:delivered={min ms.length 3}:allok={ls.all (·.kind = "ok")}"⟩
+  | "conn", [ta, tb, via] => some <| Id.run do
+    let some pa := natList ta | return bad
+    let some pb := natList tb | return bad
+    -- A = peer 0 dials B = peer 1: outbound at A (gater over A's topology), inbound at B (gater over B's topology)
+    let allowed := connAllowed ⟨pa, 1⟩ .outbound 1 && connAllowed ⟨pb, 1⟩ .inbound 0
+    let m := if allowed then "delivered:0" else "refused"
+    -- property on the implementation's output: a delivery happens only between mutual members and is attributed to A
+    let ok := impl == "refused" || (allowed && impl == "delivered:0")
+    return ⟨m, ok, s!"conn(test):{via}:allowed={allowed}"⟩
   | "refresh", [init, hashes, body, oracle, storeOk] => some <| Id.run do
     let some t0 := parseTopo init | return bad
     let some orc := parseOracle oracle | return bad
